@@ -72,7 +72,10 @@ def flat_prog(
             if i in debug_idx:
                 spec["debug"] = True
             if index_rate and i not in setup_idx and draw(st.floats(0, 1)) < index_rate:
-                spec["kind"], spec["n"] = "tup", 2
+                if draw(st.booleans()):
+                    spec["kind"], spec["n"] = "tup", 2
+                else:
+                    spec["kind"] = "dict"  # {"a": term, "b": [term, (term, term)]}
             elif none_rate and i not in setup_idx and draw(st.floats(0, 1)) < none_rate:
                 # a side-effect-only function: its result is None (or another falsy constant)
                 spec["kind"], spec["val"] = "const", draw(st.sampled_from([None, None, 0, ""]))
@@ -94,10 +97,15 @@ def flat_prog(
         for j in deps:
             how = draw(st.sampled_from(list(dep_kinds)))
             e = ["v", f"v{j}"]
-            if fns[body[j]["fn"]].get("kind") == "tup" and body[j]["active"] is None and draw(st.booleans()):
+            jk = fns[body[j]["fn"]].get("kind")
+            if jk == "tup" and body[j]["active"] is None and draw(st.booleans()):
                 e = ["i", e, draw(st.integers(0, 1))]
                 if bad_index_rate and draw(st.floats(0, 1)) < bad_index_rate:
                     e = ["i", e[1], 7]  # the user's mistake: the pair has no element 7 (plain Python: IndexError)
+            elif jk == "dict" and body[j]["active"] is None and draw(st.booleans()):
+                e = draw(st.sampled_from([["i", e, "a"], ["i", ["i", e, "b"], 0], ["i", ["i", ["i", e, "b"], 1], 1]]))
+                if bad_index_rate and draw(st.floats(0, 1)) < bad_index_rate:
+                    e = ["i", ["v", f"v{j}"], "zz"]  # a key the mapping does not have (plain Python: KeyError)
             if how == "pos":
                 args.append(e)
             elif how == "kw":
